@@ -419,6 +419,10 @@ func replayObligation(root, repo, prop string, c *Ctx, o *Obligation, payload ma
 
 // runOverlayTest injects testFile into repo/pkg through -overlay and runs TestReplayVerif.
 func runOverlayTest(repo, pkg string, exp bool, testFile string) (string, bool) {
+	return runOverlayTestNamed(repo, pkg, exp, testFile, "^TestReplayVerif$")
+}
+
+func runOverlayTestNamed(repo, pkg string, exp bool, testFile, run string) (string, bool) {
 	pkgDir := filepath.Join(repo, pkg)
 	if exp {
 		pkgDir = filepath.Join(repo, "exp", pkg)
@@ -432,7 +436,7 @@ func runOverlayTest(repo, pkg string, exp bool, testFile string) (string, bool) 
 	b, _ := json.Marshal(ov)
 	ovf := filepath.Join(tmp, "ov.json")
 	os.WriteFile(ovf, b, 0o644)
-	cmd := exec.Command("bash", "-c", "ulimit -v 8000000; exec go test -overlay "+ovf+" -vet=off -count=1 -timeout 60s -run '^TestReplayVerif$' .")
+	cmd := exec.Command("bash", "-c", "ulimit -v 8000000; exec go test -overlay "+ovf+" -vet=off -count=1 -timeout 120s -run '"+run+"' .")
 	cmd.Dir = pkgDir
 	cmd.Env = append(os.Environ(), "GOFLAGS=-mod=mod", "GOPROXY=off", "GOSUMDB=off", "GOTOOLCHAIN=local")
 	var out bytes.Buffer
